@@ -18,11 +18,12 @@ def natListMap (j : Json) : Except String (Nat → List Nat) := do
 
 def parseFOp (j : Json) : Except String FOp := do
   let a ← j.getArr?
-  if a.size != 2 then throw "bad op"
+  if a.size != 2 && a.size != 3 then throw "bad op"
   let k ← a[0]!.getStr?
   let n ← a[1]!.getNat?
+  let q ← if a.size == 3 then a[2]!.getNat? else pure 0
   match k with
-  | "query" => pure (.query n)
+  | "query" => pure (.query n q)
   | "freeze" => pure (.freeze n)
   | "unfreeze" => pure (.unfreeze n)
   | "modify" => pure (.modify n)
@@ -30,7 +31,8 @@ def parseFOp (j : Json) : Except String FOp := do
   | s => throw s!"bad op {s}"
 
 def jsonOfFOut : FOut → Json
-  | .answered v => Json.mkObj [("answered", Json.num ((v : Nat) : Lean.JsonNumber))]
+  | .answered q v => Json.mkObj [("answered", Json.num ((v : Nat) : Lean.JsonNumber)),
+                                ("key", Json.num ((q : Nat) : Lean.JsonNumber))]
   | .rejected => Json.str "rejected"
   | .done => Json.str "done"
 
